@@ -73,7 +73,14 @@ def run_inspect(case, path):
     from tally.commands.inspect import cmd_inspect
     from tally.parsers import auto_detect_csv_format
     buf, err = io.StringIO(), io.StringIO()
-    res = {'cells': cells, 'sample_lines': sample_lines}
+    # reference (library only: re, csv) for the delimited-table guard: the sampled non-blank, non-comment lines with
+    # thousands separators removed, and the field count of every row csv.reader yields for them
+    tkey = [re.sub(r'(?<=\d),(?=\d{3})', '', l) for l in sample_lines[:20] if l.strip() and not l.startswith('#')]
+    try:
+        tcounts = [len(row) for row in csv.reader(tkey)]
+    except csv.Error:
+        tcounts = None
+    res = {'cells': cells, 'sample_lines': sample_lines, 'table_lines': tkey, 'table_counts': tcounts}
     # the public auto-detection entry point on the same file (what inspect is expected to report for a CSV file)
     try:
         sp = auto_detect_csv_format(path)
